@@ -8,9 +8,13 @@ MCKindOrder == <<"http", "https", "tcp", "tcp+sni", "grpc", "https+tcp+sni">>
 \* the design treats all kinds alike (only the deviation singles out grpc): configurations of three
 \* listeners are explored over four kinds, which covers every 3-subset of the six up to renaming
 MCKindOrder4 == <<"http", "tcp", "grpc", "https+tcp+sni">>
-MCDurOrder == <<"short", "long", "inf">>
-\* short < W < long; inf never ends
-MCDur == [d \in {"short", "long", "inf"} |-> CASE d = "short" -> 1 [] d = "long" -> W + 2 [] d = "inf" -> -1]
+\* listeners that share their port with another listener of the configuration, on another local address
+MCKindOrderTwins == <<"http", "tcp", "grpc", "http~2", "tcp~2", "grpc~2", "tcp+sni~2">>
+MCTunnelKinds == {"tcp", "tcp+sni", "https+tcp+sni", "tcp~2", "tcp+sni~2"}
+MCGrpcKinds == {"grpc", "grpc~2"}
+MCDurOrder == <<"short", "long", "inf", "mute">>
+\* short < W < long; inf never ends; mute never ends either (half-closed tunnel, silent upstream)
+MCDur == [d \in {"short", "long", "inf", "mute"} |-> CASE d = "short" -> 1 [] d = "long" -> W + 2 [] OTHER -> -1]
 
 ItemJson(it) == [srv |-> it.srv, dur |-> it.dur, at |-> it.at, st |-> it.st]
 Scenario == [kinds |-> kinds, tstart |-> tstart, tret |-> clock, w |-> W,
